@@ -180,11 +180,48 @@ def make_exception(o, idx):
     raise HarnessError("unknown outcome " + str(o))
 
 
+# what a successful invocation hands back: the kinds of the Lean model (Guarded.Value).  Seven of them are falsy in Python;
+# guarded() must hand back the object of the first attempt that does not raise, whatever bool(object) is.
+VALUE_KINDS = ["object", "headTrue", "headFalse", "emptyBody", "body", "bulkTuple", "pyNone", "pyFalse", "pyZero", "emptyDict", "emptyList", "emptyStr"]
+
+
+def success_kind(o):
+    return o[1] if len(o) > 1 else "object"
+
+
+def make_value(kind, idx=0):
+    """a fresh object of the kind (real elastic_transport response classes), so that identity tells the attempts apart
+    wherever Python allows it"""
+    import elastic_transport
+
+    if kind == "object":
+        return object()
+    if kind == "headTrue":
+        return elastic_transport.HeadApiResponse(meta=_meta(200, idx))
+    if kind == "headFalse":
+        return elastic_transport.HeadApiResponse(meta=_meta(404, idx))
+    if kind == "emptyBody":
+        return elastic_transport.ObjectApiResponse(body={}, meta=_meta(200, idx))
+    if kind == "body":
+        return elastic_transport.ObjectApiResponse(body={"acknowledged": True, "hits": {"hits": []}, "index_templates": []}, meta=_meta(200, idx))
+    if kind == "bulkTuple":
+        return (idx, [])
+    if kind in ("pyNone", "pyFalse", "pyZero", "emptyStr"):
+        return {"pyNone": None, "pyFalse": False, "pyZero": 0, "emptyStr": ""}[kind]
+    if kind == "emptyDict":
+        return {}
+    if kind == "emptyList":
+        return []
+    raise HarnessError("unknown result kind " + str(kind))
+
+
 def model_outs(outs):
     m = []
     for o in outs:
         k = o[0]
-        if k == "bulk":
+        if k == "success":
+            m.append(["success", success_kind(o)])
+        elif k == "bulk":
             m.append(["bulk", model_statuses(o[1])])
         elif k == "api":
             m.append(["api", o[1]])
@@ -298,7 +335,7 @@ def observe(fn, outs, rnds, produce=None):
     trace, calls = [], []
     objs = []
     for i, o in enumerate(outs):
-        objs.append(object() if o[0] == "success" else make_exception(o, i))
+        objs.append(make_value(success_kind(o), i) if o[0] == "success" else make_exception(o, i))
 
     def play(path, args, kwargs):
         i = len(calls)
@@ -446,18 +483,30 @@ def judge(ctx, outs, rnds, obs, opname, returns_result=True, expected_return=Non
         ok, what = False, "the Rally error does not name the cause"
     if not ok:
         cls = "retry-budget" if len(obs["trace"]) != len(trace) else "guarded-semantics"
+        if kind == "returned" and len(obs["trace"]) > len(trace) and obs["trace"][: len(trace)] == trace:
+            # everything up to the first successful attempt is as prescribed, and then the function is invoked again
+            cls = "call-repeated-after-success"
+            what = (f"attempt {i + 1} did not raise (it returned {success_kind(outs[i])}: {str(obs['objs'][i])[:40]!r}, bool = {bool(obs['objs'][i])}), "
+                    "yet the wrapped function was invoked again")
         if what and "name the cause" in what:
             cls = "error-does-not-name-cause"
         ctx.fail(cls, what, {"kind": kind, "at": i, "trace": trace}, {"res": [str(x)[:120] for x in res], "trace": obs["trace"], "msg": (obs["msg"] or "")[:200]})
     return kind
 
 
-def canon_res(obs, success_index_of):
+def canon_res(obs, success_index_of, outs=None, truthy_of=None):
     """observation -> the model's wire form"""
     res = obs["res"]
     if res[0] == "returned-value":
         i = success_index_of(res[1])
-        return ["returned", i] if i is not None else ["returned-foreign", repr(res[1])[:60]]
+        if i is None:
+            return ["returned-foreign", repr(res[1])[:60]]
+        # attempt, kind of object scripted for that attempt, and the truthiness Python really gives the returned object
+        try:
+            truthy = bool(res[1]) if truthy_of is None else truthy_of(i)
+        except Exception as e:  # pylint: disable=broad-except
+            truthy = "bool() raised " + type(e).__name__
+        return ["returned", i, success_kind(outs[i]) if outs is not None else "object", truthy]
     return res
 
 
@@ -526,7 +575,7 @@ def gen_outcome(rng, transient_bias):
         return ["bulk", gen_items(rng, gen_item_count(rng), RETRYABLE)]
     c = rng.randrange(9)
     if c == 0:
-        return ["success"]
+        return ["success", rng.choice(VALUE_KINDS)]
     if c == 1:
         return ["authn", rng.randrange(NV)]
     if c == 2:
@@ -548,7 +597,7 @@ def gen_outcome(rng, transient_bias):
         return ["transportOther", rng.randrange(NV)]
     if c == 7:
         return ["otherExc", rng.randrange(8)]
-    return ["success"]
+    return ["success", rng.choice(VALUE_KINDS)]
 
 
 def vary(o, n):
@@ -560,6 +609,8 @@ def vary(o, n):
         return ["api", o[1], n % NV]
     if o[0] == "bulk":
         return ["bulk", [[st, (ITEM_DECOS[(n + j) % len(ITEM_DECOS)] if sh.startswith("index") else sh)] for j, (st, sh) in enumerate(o[1])]]
+    if o[0] == "success" and len(o) == 1:
+        return ["success", VALUE_KINDS[n % len(VALUE_KINDS)]]
     return o
 
 
@@ -605,7 +656,7 @@ def gen_exhaustive(ctx):
             i += 1
             if i % ctx.nshards != ctx.shard:
                 continue
-            outs = [vary(TRANSIENTS[(i + j) % len(TRANSIENTS)], i + j) for j in range(prefix)] + [vary(b, i)] + [["success"]]
+            outs = [vary(TRANSIENTS[(i + j) % len(TRANSIENTS)], i + j) for j in range(prefix)] + [vary(b, i)] + [vary(["success"], i)]
             yield {"outs": outs, "rnd": [RND_POOL[(i + j) % len(RND_POOL)] for j in range(prefix + 3)]}
     ctx.notes["scope"] = (f"all outcome sequences of length <= {L} over {len(CLASSES)} classes + budget-boundary family (8..12 transient faults then each class) + "
                           f"bulk errors with {ITEM_COUNTS} items, all retryable / one non-retryable item at every boundary position, after 0/1/9/10 transient faults")
@@ -631,8 +682,10 @@ def run_guarded(ctx, case):
     if any(a != (("pos",), {"key": "word"}) for a in args_seen):
         ctx.fail("arguments-not-passed-through", "guarded must call target(*args, **kwargs) unchanged on every attempt", (("pos",), {"key": "word"}), str(args_seen)[:200])
     objs = obs["objs"]
-    cres = canon_res(obs, lambda v: next((i for i, x in enumerate(objs) if x is v and outs[i][0] == "success"), None))
+    cres = canon_res(obs, lambda v: next((i for i, x in enumerate(objs) if x is v and outs[i][0] == "success"), None), outs)
     compare(ctx, "EsClient.guarded", m, obs, cres)
+    if cres[0] == "returned":
+        ctx.count("result-kind:" + cres[2] + (":truthy" if cres[3] is True else ":falsy"))
     if obs["draws"] != obs["trace"].count("c") + (1 if obs["res"] == ["pending"] else 0):
         ctx.count("random-draws-differ-from-iterations")
     kind = judge(ctx, outs, rnds, obs, "scripted_operation")
@@ -733,7 +786,8 @@ def run_method(ctx, case):
             items = [[s if (s is not None and not 200 <= s < 300) else 500, sh if sh.startswith("index") else "index"] for s, sh in items] or [[429, "index"]]
             return items[:1] if "item" in sig.parameters else items
 
-        outs = [o if o[0] != "bulk" else ["bulk", san(o[1])] for o in outs]
+        # what the real helper hands back to guarded() on success is its (n, []) tuple
+        outs = [["bulk", san(o[1])] if o[0] == "bulk" else (["success", "bulkTuple"] if o[0] == "success" else o) for o in outs]
     ndocs = max([len(o[1]) for o in outs if o[0] == "bulk"] + [1]) if "items" in sig.parameters else 1
     kw = method_args(name, sig, ndocs)
     m = ctx.model("guarded", "run", {"outs": model_outs(outs), "rnd": [f"{x}/9007199254740992" for x in rnds]})
@@ -763,14 +817,16 @@ def run_method(ctx, case):
     else:
         def sidx(v):
             return next((i for i in succ if objs[i] is v), None)
-    cres = canon_res(obs, sidx)
+    cres = canon_res(obs, sidx, outs, (lambda i: True) if is_bulk else None)
     compare(ctx, "EsClient." + name, m, obs, cres)
+    if cres[0] == "returned":
+        ctx.count("result-kind:" + cres[2] + (":truthy" if cres[3] is True else ":falsy"))
     if len(set(paths)) > 1:
         ctx.diff("EsClient." + name + " calls several client functions", None, sorted(set(paths)))
     opname = "bulk" if is_bulk else (paths[0].split(".")[-1] if paths else "?")
     kind = judge(ctx, outs, rnds, obs, opname, returns_result=returns_result)
     ctx.count("method:" + name)
-    ctx.sig([name, sorted(m.get("tags", [])), cres[0]], nontrivial=bool(outs))
+    ctx.sig([name, sorted(m.get("tags", [])), cres[0], cres[2] if cres[0] == "returned" else None], nontrivial=bool(outs))
 
 
 # ---------------------------------------------------------------------------------------------
@@ -926,8 +982,13 @@ def run_store_history(ctx, case):
             i = cur["ri"]
             cur["ri"] += 1
             o = cur["refr"][i] if i < len(cur["refr"]) else ["success"]
+            if cur.get("refresh_answered"):
+                cur["refresh_repeats"] = cur.get("refresh_repeats", 0) + 1
             if o[0] == "success":
-                return elastic_transport.ObjectApiResponse(body={}, meta=_meta(200))
+                cur["refresh_answered"] = True
+                # both shapes occur: an empty body (falsy for Python) and the usual {"_shards": ...}
+                body = {} if (i + len(cur["refr"])) % 2 == 0 else {"_shards": {"total": 2, "successful": 1, "failed": 0}}
+                return elastic_transport.ObjectApiResponse(body=body, meta=_meta(200))
             raise make_exception(o, i)
         if path in ("indices.exists", "indices.exists_index_template"):
             return False
@@ -967,7 +1028,7 @@ def run_store_history(ctx, case):
                 observed.append({"err": None, "runs": []})
                 model_steps.append({"k": "put", "n": st["n"]})
                 continue
-            cur.update(bulk=st["bulk"], refr=[o for o in st["refr"] if o[0] != "bulk"], bi=0, ri=0, eff_bulk=[], events=Both())
+            cur.update(bulk=st["bulk"], refr=[o for o in st["refr"] if o[0] != "bulk"], bi=0, ri=0, eff_bulk=[], events=Both(), refresh_answered=False)
             del trace[:]
             err = None
             try:
@@ -1013,6 +1074,8 @@ def run_store_history(ctx, case):
     if dup:
         ctx.fail("document-acknowledged-twice", "documents the cluster had already acknowledged were sent (and acknowledged) again by a later flush()/close()",
                  "each of the documents at most once", {"acknowledged": acked, "twice": dup, "step results": [o["err"] for o in observed]})
+    if cur.get("refresh_repeats"):
+        ctx.fail("call-repeated-after-success", "flush()/close(): the refresh was answered by the cluster and was sent again afterwards", 0, cur["refresh_repeats"])
     raised = [o["err"] for o in observed if o["err"]]
     if steps and steps[-1]["k"] in ("flush", "close") and not raised and sorted(acked) != list(range(serial)):
         ctx.fail("document-not-acknowledged", "no call raised and the history ends with a flush, yet not every document was acknowledged exactly once",
@@ -1024,6 +1087,160 @@ def run_store_history(ctx, case):
     ctx.count("documents", serial)
     ctx.sig([[("put" if s["k"] == "put" else s["k"] + ("+r" if s.get("refresh", True) else "")) for s in steps], [bool(o["err"]) for o in observed], len(acked) == serial],
             nontrivial=serial > 0)
+
+
+# ---------------------------------------------------------------------------------------------
+# stream 4b: EsMetricsStore.open() - the store operations it issues, driven by the truthy / falsy answers of earlier ones
+# ---------------------------------------------------------------------------------------------
+OPEN_TEMPLATE_STATES = ["none", "empty", "same", "differs"]
+
+
+def open_plan(create, template, overwrite, index):
+    """the property side, from the case only: which operations open() needs, in order"""
+    if not create:
+        return ["exists:new", "refresh:new" if index else "refresh"]
+    plan = ["template_exists"]
+    if template != "none":
+        plan.append("get_template")
+    if template in ("none", "empty") or (template == "differs" and overwrite):
+        plan.append("put_template")
+    plan.append("exists")
+    if not index:
+        plan.append("create_index")
+    plan.append("refresh")
+    return plan
+
+
+def gen_store_open(ctx):
+    rng = ctx.rng
+    pool_t = [o for o in TRANSIENT_FOR_STORE if o[0] != "bulk"]
+    pool_f = [o for o in FATAL_FOR_STORE if o[0] != "bulk"]
+    classes = [[]] + [[o] for o in pool_t] + [[pool_t[0], pool_t[2]]] + [[o] for o in pool_f] + [[pool_t[j % len(pool_t)] for j in range(10)], [pool_t[j % len(pool_t)] for j in range(11)]]
+    i = 0
+    for create in (True, False):
+        for template in OPEN_TEMPLATE_STATES:
+            for overwrite in (False, True):
+                for index in (False, True):
+                    n = len(open_plan(create, template, overwrite, index))
+                    for pos in range(n):
+                        for cl in classes:
+                            i += 1
+                            if i % ctx.nshards != ctx.shard:
+                                continue
+                            scripts = [[] for _ in range(n)]
+                            scripts[pos] = [vary(o, i + j) for j, o in enumerate(cl)]
+                            yield {"create": create, "template": template, "overwrite": overwrite, "index": index, "scripts": scripts,
+                                   "rnd": [RND_POOL[(i + j) % len(RND_POOL)] for j in range(40)]}
+    for _ in range(ctx.budget):
+        create = rng.random() < 0.7
+        yield {"create": create, "template": rng.choice(OPEN_TEMPLATE_STATES), "overwrite": rng.random() < 0.5, "index": rng.random() < 0.5,
+               "scripts": [[o for o in gen_fault_script(rng, False)] for _ in range(rng.choice([0, 2, 4, 6]))], "rnd": gen_rnds(rng, 80)}
+
+
+def run_store_open(ctx, case):
+    import datetime
+    import json
+    import elastic_transport
+    from esrally import config, exceptions, metrics
+
+    create, template, overwrite, index, scripts, rnds = case["create"], case["template"], case["overwrite"], case["index"], case["scripts"], case["rnd"]
+    groups = []          # [[op, [events]]] as observed: consecutive invocations of one client API on one index
+    st = {"truth_index": index}
+    rally_template = {"settings": {}, "mappings": {}}
+
+    def answer(op):
+        if op == "template_exists":
+            return elastic_transport.HeadApiResponse(meta=_meta(200 if template != "none" else 404))
+        if op == "get_template":
+            listed = [] if template in ("none", "empty") else [{"name": "rally-metrics", "index_template": {
+                "index_patterns": ["rally-metrics-*"], "template": rally_template if template == "same" else {"settings": {"index": {"number_of_shards": "3"}}, "mappings": {}}}}]
+            return elastic_transport.ObjectApiResponse(body={"index_templates": listed}, meta=_meta(200))
+        if op in ("exists", "exists:new"):
+            return elastic_transport.HeadApiResponse(meta=_meta(200 if st["truth_index"] else 404))
+        if op in ("refresh", "refresh:new"):
+            return elastic_transport.ObjectApiResponse(body={} if len(groups) % 2 else {"_shards": {"total": 2, "successful": 1, "failed": 0}}, meta=_meta(200))
+        return elastic_transport.ObjectApiResponse(body={"acknowledged": True}, meta=_meta(200))
+
+    names = {"indices.exists_index_template": "template_exists", "indices.get_index_template": "get_template", "indices.put_index_template": "put_template",
+             "indices.exists": "exists", "indices.create": "create_index", "indices.refresh": "refresh"}
+
+    def play(path, args, kwargs):
+        op = names.get(path, path)
+        if op in ("exists", "refresh", "create_index") and str(kwargs.get("index", "")).endswith(".new"):
+            op += ":new"
+        if not groups or groups[-1][0] != op:
+            groups.append([op, []])
+        g = groups[-1]
+        i = g[1].count("c")
+        g[1].append("c")
+        script = scripts[len(groups) - 1] if len(groups) - 1 < len(scripts) else []
+        if i < len(script):
+            raise make_exception(script[i], i)
+        return answer(op)
+
+    class Sink(list):
+        def append(self, x):
+            if groups:
+                groups[-1][1].append(x)
+
+    class Factory:
+        def __init__(self, cfg):
+            pass
+
+        def create(self):
+            return metrics.EsClient(StubClient(play))
+
+    class Templates(_Templates):
+        def metrics_template(self):
+            return json.dumps({"index_patterns": ["rally-metrics-*"], "template": rally_template})
+
+    cfg = config.Config()
+    cfg.add(config.Scope.application, "system", "env.name", "verif")
+    cfg.add(config.Scope.application, "track", "params", {})
+    cfg.add(config.Scope.application, "reporting", "datastore.overwrite_existing_templates", overwrite)
+    store = metrics.EsMetricsStore(cfg, client_factory_class=Factory, index_template_provider_class=Templates, clock=_Clock)
+    err, exc_kind = None, None
+    with Patched(Sink(), rnds):
+        try:
+            store.open("race-1", datetime.datetime(2016, 1, 31), "track", "challenge", "car", create=create)
+        except exceptions.RallyError as e:
+            err, exc_kind = rally_cause(e), type(e).__name__
+        except Exception as e:  # pylint: disable=broad-except
+            err, exc_kind = ["foreign", type(e).__name__, str(e)[:100]], "foreign"
+    observed = [[g[0], g[1]] for g in groups]
+    m = ctx.model("guarded", "open", {"create": create, "template": template, "overwrite": overwrite, "index": index,
+                                      "scripts": [model_outs(sc) for sc in scripts], "rnd": [f"{x}/9007199254740992" for x in rnds]})
+    mr = m["r"]
+
+    def same_err(a, b):
+        if a is None or b is None:
+            return a is b
+        return list(a) == list(b)
+
+    if mr["ops"] != observed or not same_err(mr["err"], err):
+        ctx.diff("EsMetricsStore.open", {"ops": mr["ops"], "err": mr["err"]}, {"ops": observed, "err": err})
+    # direct oracle, from the case only: the operations open() needs, each retried as the property says, nothing after an answer
+    plan = open_plan(create, template, overwrite, index)
+    expected, draws, want_kind = [], 0, None
+    for j, op in enumerate(plan):
+        script = scripts[j] if j < len(scripts) else []
+        kind, _at, tr = oracle(list(script) + [["success"]], rnds[draws:])
+        expected.append([op, tr])
+        draws += tr.count("c")
+        if kind != "returned":
+            want_kind = kind
+            break
+    if observed != expected:
+        repeated = any(j < len(expected) and g[0] == expected[j][0] and len(g[1]) > len(expected[j][1]) and g[1][: len(expected[j][1])] == expected[j][1]
+                       and want_kind is None for j, g in enumerate(observed))
+        ctx.fail("call-repeated-after-success" if repeated else "open-store-operations",
+                 "EsMetricsStore.open(): the store operations / their retries are not what the state of the metrics store and the fault scripts call for"
+                 + (" (an operation that had been answered was invoked again)" if repeated else ""), expected, observed)
+    elif (want_kind is None) != (err is None) or (want_kind == "setup" and exc_kind != "SystemSetupError") or (want_kind == "rally" and exc_kind not in ("RallyError", "SystemSetupError")):
+        ctx.fail("open-error-surface", "EsMetricsStore.open(): a fault that is not retried (any more) must surface as a Rally error, and nothing else may", want_kind, err)
+    ctx.count("open:" + ("create" if create else "read") + ":" + template)
+    ctx.count("open-ops", len(observed))
+    ctx.sig([create, template, overwrite, index, [g[0] for g in observed], [g[1].count("c") for g in observed], exc_kind], nontrivial=True)
 
 
 # ---------------------------------------------------------------------------------------------
@@ -1242,6 +1459,9 @@ def run_real_client(ctx, case):
                                                               "target": tgt_ok_status if target_k == "ok" else target_k})
                     if m["r"]["exchanges"] != kinds:
                         ctx.diff(f"exchanges of EsClient.{name} attempt {k + 1}", m["r"]["exchanges"], kinds)
+                    elif info_k == "ok" and spec_class(target_k if target_k != "ok" else tgt_ok_status, head, ignore, False) == "success" and m["r"]["exchanges"] != seen:
+                        # nothing here is re-sent by the transport layer: the exchanges of the attempt are exactly the model's, one by one
+                        ctx.diff(f"exchanges of EsClient.{name} attempt {k + 1} (answered, not a fault)", m["r"]["exchanges"], seen)
                     out = m["r"]["outcome"]
                     mclass = "success" if out[0] == "response" else ("transient" if out[0] in ("connError", "connTimeout") else spec_class(out[1], False, [], True))
                     # --- direct oracle: what the property prescribes for the fault classes of this attempt's exchanges
@@ -1276,6 +1496,22 @@ def run_real_client(ctx, case):
                         ctx.diff(f"EsClient.{name} attempt {k + 1}: action vs model outcome", {"model outcome": out, "class": mclass}, {"action": act, "final": final[0]})
                     if not ok:
                         problems.append({"attempt": k + 1, "answers": {"GET /": info_k, "request": target_k}, "allowed": cands, "observed": act})
+                # --- direct oracle: "the call is not repeated after success" at the wire.  The first request of the operation that the
+                # node ANSWERED (2xx, 404 to a HEAD, a status the operation ignores) is the end of the call, whatever the client makes
+                # of the answer (exists() -> a falsy HeadApiResponse, an empty body ...): nothing may be sent after it.
+                def answered(e):
+                    return e["kind"] == "target" and "status" in e and spec_class(200 if 200 <= e["status"] < 300 else e["status"], head, ignore, False) == "success"
+
+                first_ok = next((j for j, e in enumerate(log) if answered(e)), None)
+                if first_ok is not None and len(log) > first_ok + 1:
+                    ctx.fail("call-repeated-after-success", f"EsClient.{name} on the real client stack: the metrics store answered the request (attempt {log[first_ok]['attempt'] + 1}, "
+                             f"status {log[first_ok]['status']}) and the operation sent {len(log) - first_ok - 1} more request(s) afterwards",
+                             {"requests after the answered one": 0, "exchanges": [[e["attempt"], e["method"], e["target"], e.get("status", e["spec"])] for e in log][: first_ok + 1]},
+                             {"returned": repr(final[1])[:80], "truthiness of what was returned": (bool(final[1]) if final[0] == "returned" else None), "pauses": pauses,
+                              "exchanges": [[e["attempt"], e["method"], e["target"], e.get("status", e["spec"])] for e in log][:16]})
+                    ctx.count("requests-after-answered-request")
+                if final[0] == "returned":
+                    ctx.count("real-result:" + type(final[1]).__name__ + (":truthy" if final[1] else ":falsy"))
                 if problems:
                     cls = "non-rally-exception-escapes" if final[0] == "foreign" else "client-fault-not-handled-as-property-says"
                     ctx.fail(cls, f"EsClient.{name} on the real client stack (store {'with' if header else 'without'} X-Elastic-Product): the answers of the node are not "
@@ -1476,5 +1712,6 @@ STREAMS = [
     Stream("store_methods", gen_methods, run_method, quick=6000, thorough=120000, shards=12),
     Stream("method_table", gen_table, run_table, quick=1, thorough=1, shards=1),
     Stream("store_histories", gen_store_histories, run_store_history, quick=4000, thorough=80000, shards=16),
+    Stream("store_open", gen_store_open, run_store_open, quick=1500, thorough=40000, shards=16),
     Stream("real_client_ops", gen_real_client, run_real_client, quick=3000, thorough=60000, shards=16),
 ]
